@@ -10,6 +10,9 @@ from .common import all_ans, where, callee_targets, fn_err_variants, switch_edge
 from .hpketerms import concat_pieces
 from . import c10, c12, rfc9180 as rfc
 
+# buffer capacities may be cfg-dependent constants while the Kdf/Aead impls are not: also decide the default feature set
+QUICK_EXTRA_CONFIGS = ['default']
+
 EXPLANATION = (
     'Static analysis of MIR (all cargo features). R13.1: the entry points are all exported functions of the crate '
     '(cross-checked against the API facts, so a new public byte-consuming function cannot be forgotten). R13.2: every '
